@@ -5,18 +5,18 @@ From MV Require Import Model.Level2State Model.Level2StateExec Proofs.Level2Stat
 Import ListNotations.
 
 Lemma restored_and_repeat
-  (V Q A GV Val : Type) (dV : V) (dQ : Q) (key_of : A -> option nat) (dim_ok exc_ok : A -> bool)
+  (V Q A GV Val : Type) (dV : V) (dQ : Q) (renorm : Q -> Q) (key_of : A -> option nat) (dim_ok exc_ok : A -> bool)
   (pix_shape : A -> list nat) (post : list GV -> Val) (F : nat -> nat -> ginput V Q -> gres GV)
   (w : wrapper) (p : list instr) (c : call) (sch : sched) (cnt : nat) (st : list (obj V Q A)) :
-  wrapper_ok w p = true -> wf_store V Q A st ->
-  r_store V Q A Val (getBH_level2 V Q A GV Val dV dQ key_of dim_ok exc_ok pix_shape post F
+  wrapper_ok w p = true -> wf_store V Q A st -> (w = WFinallyTrim -> fix_store V Q A renorm st) ->
+  r_store V Q A Val (getBH_level2 V Q A GV Val dV dQ renorm key_of dim_ok exc_ok pix_shape post F
                                   w p c sch cnt st) = st /\
-  getBH_level2 V Q A GV Val dV dQ key_of dim_ok exc_ok pix_shape post F w p c sch cnt
-    (r_store V Q A Val (getBH_level2 V Q A GV Val dV dQ key_of dim_ok exc_ok pix_shape post F
+  getBH_level2 V Q A GV Val dV dQ renorm key_of dim_ok exc_ok pix_shape post F w p c sch cnt
+    (r_store V Q A Val (getBH_level2 V Q A GV Val dV dQ renorm key_of dim_ok exc_ok pix_shape post F
                                      w p c sch cnt st))
-  = getBH_level2 V Q A GV Val dV dQ key_of dim_ok exc_ok pix_shape post F w p c sch cnt st.
+  = getBH_level2 V Q A GV Val dV dQ renorm key_of dim_ok exc_ok pix_shape post F w p c sch cnt st.
 Proof.
-  intros Hp Hw. split.
+  intros Hp Hw Hf. split.
   - apply state_restored; assumption.
   - apply second_call_identical; assumption.
 Qed.
@@ -97,3 +97,24 @@ Lemma current_shape_witness :
   forallb (fun pc => negb (changed WFinallyTrim (firstn 24 prog_prefix ++ IRecord :: skipn 24 prog_prefix)
                                    w_call (anon_at pc) [] [w_src (Some 3); w_sens])) (seq 0 45) = true.
 Proof. vm_compute. reflexivity. Qed.
+
+(* the finding repaired by commit e5d1a5c: with a re-normalisation that is not the identity on a stored
+   quaternion, the TRIMMING finally returns normally and leaves that quaternion changed (a SUCCESSFUL
+   call changes the object), while the restoring finally gives the store back *)
+Definition rn_bump (q : XQ) : XQ := (q + 1)%Z.
+Lemma trimming_finally_renorm_refuted :
+  r_out XV XQ xattr (list nat) (xrun_r rn_bump WFinallyTrim prog_trim w_call no_sched [] 0 [w_src (Some 3); w_sens])
+    = Returned (list nat) (Some [3]) /\
+  r_store XV XQ xattr (list nat) (xrun_r rn_bump WFinallyTrim prog_trim w_call no_sched [] 0 [w_src (Some 3); w_sens])
+    <> [w_src (Some 3); w_sens] /\
+  r_store XV XQ xattr (list nat) (xrun_r rn_bump WFinallyRestore prog_restore w_call no_sched [] 0 [w_src (Some 3); w_sens])
+    = [w_src (Some 3); w_sens].
+Proof.
+  split; [vm_compute; reflexivity|]. split; [|vm_compute; reflexivity].
+  intros E.
+  assert (H : store_eqb (r_store XV XQ xattr (list nat)
+                 (xrun_r rn_bump WFinallyTrim prog_trim w_call no_sched [] 0 [w_src (Some 3); w_sens]))
+                (map (fun o => (o_pos XV XQ xattr o, o_ori XV XQ xattr o)) [w_src (Some 3); w_sens]) = false)
+    by (vm_compute; reflexivity).
+  rewrite E in H. rewrite store_eqb_refl in H. discriminate.
+Qed.
